@@ -1,0 +1,8 @@
+//go:build !verif
+
+package keeper
+
+import "github.com/bianjieai/tibc-go/modules/tibc/apps/nft_transfer/types"
+
+// wrapTokenKeeper is the identity in normal builds.
+func wrapTokenKeeper(k types.NftKeeper) types.NftKeeper { return k }
